@@ -114,7 +114,7 @@ def r_iterators(chk, P, tier):
 
 
 def r_size_hint(chk, P, tier):
-    chk.rule("STEP.size_hint", "the remaining-length unit of each date iterator matches its step: whole days for the day iterator, whole weeks (num_weeks, or num_days / 7) for the week iterator", floor=2)
+    chk.rule("STEP.size_hint", "the remaining-length unit of each date iterator matches its step: whole days for the day iterator, whole weeks (num_weeks, or num_days / 7) for the week iterator", floor=6)
     for it, unit in (("NaiveDateDaysIterator", "num_days"), ("NaiveDateWeeksIterator", "num_weeks")):
         fn = "<naive::date::%s as std::iter::Iterator>::size_hint" % it
         cs = {c.split("::")[-1] for c in callees(P, fn) if c.startswith("time_delta::TimeDelta::num_")}
@@ -124,6 +124,22 @@ def r_size_hint(chk, P, tier):
             from rules import consts_in_fn
             ok = 7 in consts_in_fn(P, fn)
         chk.expect(ok, it, "%s measures the remaining length with %s (expected %s)" % (fn, sorted(cs), unit), loc=P.loc(fn))
+        # exactness: the iterator never yields NaiveDate::MAX itself, so the remaining length is the plain distance: lower and upper hint are the same
+        # term and no constant is added to, subtracted from or multiplied into it (the only constant accepted is the divisor 7 of the week idiom)
+        for p_ in Sym(P, fn).paths():
+            if p_.end[0] != "return":
+                continue
+            r = p_.ret
+            if not (r[0] == "agg" and len(r[4]) == 2):
+                chk.bad(it + " shape", "%s returns %s, not a (lower, upper) pair" % (fn, pp(r)[:160]), loc=P.loc(fn))
+                continue
+            lo, hi = r[4]
+            v, pay = result_variant(hi)
+            same = v == "Some" and len(pay) == 1 and pp(pay[0]) == pp(lo)
+            chk.expect(same, it + " bounds", "%s: lower hint %s and upper hint %s differ (the length is known exactly)" % (fn, pp(lo)[:120], pp(hi)[:120]), loc=P.loc(fn))
+            offs = [x for x in walk_terms(lo) if x[0] == "bin" and any(const_of(y) not in (None, 0) for y in (x[2], x[3]))
+                    and not (x[1] == "Div" and const_of(x[3]) == 7 and unit == "num_weeks") and x[1] not in ("Eq", "Ne", "Lt", "Le", "Gt", "Ge")]
+            chk.expect(not offs, it + " exact", "%s adjusts the distance to NaiveDate::MAX by a constant: %s (the iterator never yields MAX itself, the distance is the length)" % (fn, [pp(x)[:80] for x in offs]), loc=P.loc(fn))
 
 
 def r_absint(chk, P, tier):
